@@ -120,7 +120,7 @@ def _fire_all(P, R, fn):
                 for (t, lab) in fn.succ(b):
                     if t == ve["Some"] and lab == ("sw", 1):
                         pass_edges.add((b, t, lab))
-    reach = fn.reach(entry, avoid_edges=pass_edges, avoid_blocks=[lp["header"]])
+    reach = A.reach_bool(fn, entry, avoid_edges=pass_edges, avoid_blocks=[lp["header"]])
     if hits == 0:
         R.violate("a", "liveness-gate-absent", "fire_all never checks that the activation's matched fact is still in working memory before running the rule's action: a retracted fact can cause a firing", fn, act.line)
     elif act.bb in reach:
@@ -144,7 +144,7 @@ def _fire_all(P, R, fn):
                 fe, te = A.bool_edges(fn, b)
                 pe = (b, te, ("sw", "otherwise")) if val else (b, fe, ("sw", 0))
                 none_edges = set(e for e in pass_edges if "discr" in fmt_sym(strip(fn.sym_switch(e[0])), maxdepth=3) and "working_memory" not in fmt_sym(strip(fn.sym_switch(e[0])), maxdepth=10))
-                r2 = fn.reach(entry, avoid_edges={pe} | none_edges, avoid_blocks=[lp["header"]])
+                r2 = A.reach_bool(fn, entry, avoid_edges={pe} | none_edges, avoid_blocks=[lp["header"]])
                 if act.bb not in r2 and same_rule and from_wm:
                     good = c
     if good is not None:
@@ -254,7 +254,7 @@ def _views(P, R):
             else:
                 R.hold("enc", "WorkingMemory.%s private" % f["name"])
     n = 0
-    for fn in sorted(P.fns.values(), key=lambda f: f.name):
+    for fn in sorted(P.views(), key=lambda f: f.name):
         if fn.impl_self != WM or fn.kind != "method" or fn.vis != "pub" or fn.argc < 1 or not fn.local_ty(1).startswith("&") or fn.local_ty(1).startswith("&mut"):
             continue
         rt = fn.locals[0][0]
@@ -265,15 +265,23 @@ def _views(P, R):
             continue
         n += 1
         ok = False
+        bodies = [fn] + P.closures_of(fn)
         for cl in P.closures_of(fn):
             rets = A.returned_syms(cl)
             if len(rets) == 1:
                 atom, val = A.norm_bool(rets[0][1], True)
                 if atom.endswith("metadata.retracted") and val is False:
-                    # closure handed to a filter call
-                    for c in fn.calls():
-                        if c.name.endswith("::filter") and any(x[0] == "agg" and x[1] == "closure:" + cl.name for a in c.args for x in walk(fn.sym_operand(a))):
-                            ok = True
+                    # closure handed to a filter call (Iterator::filter / Option::filter), in the method or in one of its closures
+                    for g in bodies:
+                        for c in g.calls():
+                            if c.name.endswith("::filter") and any(x[0] == "agg" and x[1] == "closure:" + cl.name for a in c.args for x in walk(g.sym_operand(a))):
+                                ok = True
+        if not ok:
+            # guard form: every path that hands out a fact passed `!fact.metadata.retracted` (match guard, if, let-else)
+            rows, capped = A.decision_rows(fn)
+            handed = [(conds, ret) for conds, ret in rows if ret is not None and strip(ret)[0] == "agg" and strip(ret)[1].endswith("Option::Some")]
+            if handed and not capped and all(any(isinstance(o, bool) and A.norm_bool(c, o)[0].endswith("metadata.retracted") and A.norm_bool(c, o)[1] is False for c, o in conds) for conds, ret in handed):
+                ok = True
         if ok:
             R.hold("c", "view %s filters on !metadata.retracted" % fn.short_name, fn=fn)
         else:
@@ -374,9 +382,7 @@ def _handles(P, R):
 
 def _propagation(P, R):
     n = 0
-    for fn in sorted(P.fns.values(), key=lambda f: f.name):
-        if fn.impl_self != IE or fn.kind != "method":
-            continue
+    for fn in sorted(P.views(lambda f: f.impl_self == IE and f.kind == "method"), key=lambda f: f.name):
         adds = [c for c in fn.calls() if c.resolved == "rete::agenda::AdvancedAgenda::add_activation" and c.bb in fn.normal_blocks()]
         evs = [c for c in fn.calls() if c.resolved == EVALT and c.bb in fn.normal_blocks()]
         if not adds or not evs:
